@@ -151,11 +151,12 @@ class OpPaths:
                         args = x.get('args', [])
                         if x.get('op') == '()' and args:
                             args = args[1:]          # operator(): args[0] is the object
+                        ev = Ev(fn, b, i, line, x, binding, depth)
+                        bind['__call__'] = ev
                         for p, a in zip(callee.params, args):
                             bind[p['d']] = (fn, a, binding)
                         sub = list(self._fn_paths(callee, bind, depth + 1, stack + (fn.key,)))
                         new = []
-                        ev = Ev(fn, b, i, line, x, binding, depth)
                         for s, ab in seqs:
                             if ab:
                                 new.append((s, ab))
@@ -224,13 +225,9 @@ def ec_class(cond_item, ec_names=('ec',)):
 
     def ec_ref(x):
         y = x
-        while isinstance(y, dict) and y.get('k') in ('icast', 'cast', 'move', 'local', 'paramof'):
-            if y.get('k') == 'paramof':
-                break
+        while isinstance(y, dict) and y.get('k') in ('icast', 'cast', 'move', 'local'):
             y = y.get('e')
-        if isinstance(y, dict) and y.get('k') == 'paramof':
-            return y.get('n')
-        if isinstance(y, dict) and y.get('k') == 'ref' and y.get('tcls') == 'error_code':
+        if isinstance(y, dict) and y.get('k') in ('paramof', 'ref') and y.get('tcls') == 'error_code':
             return y.get('n')
         if isinstance(y, dict) and y.get('k') == 'call' and callee_name(y) == 'operator bool':
             return ec_ref(y.get('obj'))
